@@ -29,7 +29,15 @@ def check_anylayout(ctx, rep, tier):
     for name, ty, path in wrappers:
         by_ref = ty['k'] == 'ref'
         eng = Engine(ctx.prog, opaque=set(concrete))
-        leaves = eng.run(path, arg_names=['self', 'keycode', 'modifiers', 'handle_ctrl'])
+        try:
+            leaves = eng.run(path, arg_names=['self', 'keycode', 'modifiers', 'handle_ctrl'])
+        except Undecided as u:
+            if 'ret:map_keycode' in str(u):
+                rep.ob('delegation arms', 1, 0)
+                rep.finding('C17 %s inspects-the-wrapped-result' % ('by-ref' if by_ref else 'by-value'),
+                            'the wrapper branches on what the wrapped layout returned instead of passing it through (%s)' % u)
+                continue
+            raise
         check_partition(eng, leaves)
         # locate the enum value and its tag atom
         cellname = ('H', 'self^') if by_ref else ('H', 'self')
